@@ -86,7 +86,12 @@ let eval inp obs =
       | SAcq (id, _, _), Some (ok, q) ->
         let tau = (match m with
           | `Ret (mok, mt) when mok = ok && (ZA.equal q mt || ZA.equal q (ZA.succ mt)) -> mt
-          | _ -> snap q) in
+          | _ ->
+            (* not on an instant but 2..5 q after one: too late to call on time, too early to call late -
+               indeterminate for the acceptor as well as for the model comparison *)
+            if ZA.equal (snap q) q && List.exists (fun tau -> let d = ZA.to_int (ZA.sub q tau) in d >= 2 && d <= 5) instants
+            then indet := true;
+            snap q) in
         [(id, (ok, z_of_zz tau))]
       | _ -> []) mr pairs) in
     let bad = ref false in
